@@ -100,6 +100,10 @@ def evaluate(mod, case):
     from . import spec as S
 
     S.reset_defaults()
+    sp = case if isinstance(case, dict) else None
+    if sp is not None and "tasks" not in sp and isinstance(sp.get("spec"), dict):
+        sp = sp["spec"]
+    S.set_style(sp)
     use_alarm = hasattr(signal, "setitimer") and CASE_TIMEOUT > 0
     old_handler = None
     if use_alarm:
@@ -307,6 +311,13 @@ def run_shard(args):
         out.pop("pending", None)
     except Exception:  # noqa: BLE001
         out["harness_error"] = traceback.format_exc()
+    finally:
+        try:
+            from . import spec as _spec
+
+            _spec.cleanup_tmp()
+        except Exception:  # noqa: BLE001
+            pass
     return out
 
 
